@@ -85,7 +85,9 @@ def do_replay(path):
             print(log)
             return 2
         import subprocess
-        r = subprocess.run([b.path(), "--replay", p["history"]] + [str(a) for a in p.get("args", [])])
+        env = dict(os.environ)
+        env["ASAN_OPTIONS"] = "detect_leaks=0:abort_on_error=1:allocator_may_return_null=1"
+        r = subprocess.run([b.path(), "--replay", p["history"]] + [str(a) for a in p.get("args", [])], env=env)
         return r.returncode
     return plans.replay_other(p)
 
